@@ -93,7 +93,8 @@ def q_val(v):
         return '(VStr %s)' % coq_str(v['s'])
     if 'sub' in v:
         root = {'int': 'KInt', 'str': 'KStr', 'obj': 'KObj'}[v['sub']['root']]
-        return '(VSub (Build_vtype %s %s) %s)' % (coq_list(['%d%%nat' % c for c in v['sub']['chain']]), root, q_Z(v['z']))
+        return '(VSub (Build_vtype %s %s %s) %s)' % (coq_list(['%d%%nat' % c for c in v['sub'].get('mixins') or []]),
+                                                     coq_list(['%d%%nat' % c for c in v['sub']['chain']]), root, q_Z(v['z']))
     return '(VInst %d%%nat %s)' % (v['c'], coq_list(['(%s, %s)' % (coq_str(k), q_val(x)) for k, x in v['f']]))
 
 
@@ -196,12 +197,16 @@ class Sim:
                 r[k] = v
         return r
 
+    MERGED = ('ltr', 'dtr', 'raise', 'skipdef', 'auto_tags', 'tag_key', 'marshal', 'skip_if')
+    SPECIAL = ('rec', 'jk2f')          # __special_attrs__: taken from the first operand of `|` only
+
     @staticmethod
     def m_or(a, b):
         r = {}
-        for k in ('ltr', 'dtr', 'raise', 'skipdef'):
+        for k in Sim.MERGED:
             r[k] = a.get(k) if a.get(k) is not None else b.get(k)
-        r['rec'] = a.get('rec')
+        for k in Sim.SPECIAL:
+            r[k] = a.get(k)
         return r
 
     def own(self, c):
@@ -210,7 +215,7 @@ class Sim:
 
     @staticmethod
     def norm(m):
-        return {k: (m or {}).get(k) for k in ('ltr', 'dtr', 'raise', 'skipdef', 'rec')}
+        return {k: (m or {}).get(k) for k in Sim.MERGED + Sim.SPECIAL}
 
     def eff(self, c, cfg):
         own = self.own(c)
@@ -410,6 +415,39 @@ def gen_meta(r, rich=True):
     return m
 
 
+# objects shared between the Meta configurations of different classes (extended grammar): the SAME dict /
+# Condition object is handed to every LoadMeta / inner Meta that names its id
+SHARED_MAPS = {1: {'ID': 'x', 'Alt-Key': 'my_val'}, 2: {'extra': 'w', 'KeyY': 'y'}}
+SHARED_CONDS = {11: ['EQ', 0], 12: ['IS_FALSY'], 13: ['IS', None]}
+
+
+def gen_meta_x(r):
+    """Meta of the extended grammar: the settings lattice beyond the Coq model"""
+    m = gen_meta(r)
+    if r.random() < 0.3:
+        # non-recursive roots, combined with the other flags: nothing of such a Meta may reach nested classes
+        m['rec'] = False
+        if r.random() < 0.6:
+            m['auto_tags'] = True
+        if m.get('dtr') is None and r.random() < 0.7:
+            m['dtr'] = r.choice(TRS)
+        if r.random() < 0.4:
+            m['skipdef'] = True
+    if r.random() < 0.3:
+        m['auto_tags'] = True
+    if r.random() < 0.12:
+        m['tag_key'] = 'kind'
+    if r.random() < 0.35:
+        m['marshal'] = r.choice(['TIMESTAMP', 'TIMESTAMP', 'ISO_FORMAT'])
+    if r.random() < 0.2:
+        k = r.choice(sorted(SHARED_CONDS))
+        m['skip_if'] = {'obj': k, 'cond': SHARED_CONDS[k]}
+    if r.random() < 0.35:
+        k = r.choice(sorted(SHARED_MAPS))
+        m['jk2f'] = {'obj': k, 'map': SHARED_MAPS[k]}
+    return m
+
+
 def spellings(name):
     ws = name.split('_')
     cap = [w[:1].upper() + w[1:] for w in ws]
@@ -419,7 +457,15 @@ def spellings(name):
 class Prog:
     """random program: classes, then operations on them"""
 
-    def __init__(self, r, first_cid=1, qn_base=0, mod='m', max_classes=4):
+    # value types of the 'novel subtype' dumps: related types, so that the ORDER in which a class first
+    # sees them matters to any cache keyed by type (mixins = plain classes listed before the chain / builtin)
+    VTYPES = [([], [1], 'int'), ([], [2, 1], 'int'), ([], [3, 2, 1], 'int'), ([], [2], 'str'), ([], [3, 2], 'str'),
+              ([], [4], 'obj'), ([], [6, 4], 'obj'), ([], [8], 'obj'), ([], [9], 'obj'),
+              ([8], [], 'int'), ([8], [1], 'int'), ([9], [], 'str'), ([8, 9], [2], 'str'), ([9], [4], 'obj'), ([8], [], 'obj')]
+    VTYPES_X = [([8], [], 'list'), ([], [7], 'list'), ([9, 8], [7], 'list')]
+
+    def __init__(self, r, first_cid=1, qn_base=0, mod='m', max_classes=4, ext=False):
+        self.ext = ext
         self.r = r
         self.next = first_cid
         self.qn_base = qn_base
@@ -430,6 +476,7 @@ class Prog:
         self.touched = set()
         self.seen_keys = {}
         self.seen_vt = set()
+        self.neg = {}          # cid -> [(pool field name | None, key spelling)]: keys the class was loaded with and does not know
 
     # ---- classes
     def new_class(self, kind=None, force_nested=None, qn=None, wiz=None, pool=None, mod=None):
@@ -451,18 +498,29 @@ class Prog:
             fields = [list(f) for f in bd['fields']]
             names = {f[0] for f in fields}
             pool = [n for n in FIELD_POOL if n not in names]
-            for n in r.sample(pool, r.choice([1, 1, 2])):
+            # prefer fields whose keys an ancestor has already seen (and negative-cached) as unknown
+            seen = [n for a in [base] + bd['mro'] for n, _ in self.neg.get(a, []) if n in pool]
+            picked = list(dict.fromkeys(seen))[:2] if (seen and r.random() < 0.7) else r.sample(pool, r.choice([1, 1, 2]))
+            for n in picked:
                 ty = r.choice(['int', 'int', 'str'])
                 own.append([n, ty, r.randrange(0, 4) if ty == 'int' else r.choice(['d', 'ab', ''])])
+            if self.ext and r.random() < 0.1 and 'cond_f' not in names:
+                own.append(['cond_f', 'badcond', True])
         else:
             names = r.sample(FIELD_POOL, r.choice([1, 2, 2, 3]))
             req, opt = [], []
             for n in names:
-                ty = r.choice(['int', 'int', 'str'])
-                if r.random() < 0.55:
+                ty = r.choice(['int', 'int', 'str'] + (['datetime', 'any', 'any', 'bool'] if self.ext else []))
+                if ty in ('datetime', 'any'):
+                    req.append([n, ty, None])
+                elif ty == 'bool':
+                    opt.append([n, ty, r.random() < 0.5])
+                elif r.random() < 0.55:
                     opt.append([n, ty, r.randrange(0, 4) if ty == 'int' else r.choice(['d', 'ab', ''])])
                 else:
                     req.append([n, ty, None])
+            if self.ext and r.random() < 0.15:
+                opt.append(['cond_f', 'badcond', True])
             nest = []
             if kind == 'root' or force_nested:
                 targets = force_nested or [r.choice(existing) for _ in range(r.choice([1, 1, 2]))]
@@ -473,7 +531,7 @@ class Prog:
         mro = [] if base is None else [base] + self.decl[base]['mro']
         o = {'op': 'define', 'cid': c, 'qn': self.qn_base + c if qn is None else qn, 'mod': mod or self.mod, 'wiz': wiz, 'base': base, 'mro': mro,
              'base_qn': None if base is None else self.decl[base]['qn'],
-             'inner': gen_meta(r) if (wiz and r.random() < 0.35) else None,
+             'inner': (gen_meta_x(r) if self.ext else gen_meta(r)) if (wiz and r.random() < 0.35) else None,
              'fields': allf, 'own_fields': own, 'tag': 'subclass' if base is not None else 'define'}
         self.decl[c] = o
         self.ops.append(o)
@@ -500,7 +558,10 @@ class Prog:
                 continue
             if mode == 'fail' and bad_at is None and dflt is None and r.random() < 0.6:
                 continue           # missing required field
-            if mode == 'novel':
+            anc_sp = [sp for a in d['mro'] for n, sp in self.neg.get(a, []) if n == name]
+            if anc_sp and r.random() < 0.75:
+                key = r.choice(anc_sp)         # the spelling an ancestor met as an unknown key
+            elif mode == 'novel':
                 sp = [s for s in spellings(name) if (c, s) not in self.seen_keys]
                 key = r.choice(sp) if sp else r.choice(spellings(name))
             else:
@@ -513,12 +574,34 @@ class Prog:
                     val = self.gen_doc(ty['nested'], 'fail' if (mode == 'fail' and bad_at is None and r.random() < 0.5) else ('novel' if mode == 'novel' else 'good'))
             elif ty == 'int':
                 val = r.choice(['abc', 'x1']) if i == bad_at else r.choice([r.randrange(-3, 50), r.randrange(0, 9), str(r.randrange(0, 999)), '007', None, ''])
-            else:
+            elif ty == 'str':
                 val = r.choice(['hello', 'v', '', r.randrange(-2, 30), None])
+            elif ty == 'datetime':
+                val = 'not-a-date' if i == bad_at else r.choice(['2020-01-01T00:00:00+00:00', '2021-05-06T07:08:09Z', 1577836800])
+            elif ty in ('bool', 'badcond'):
+                val = r.choice([True, False, 'true', 'no', 1])
+            else:
+                val = r.choice([5, 'x', None, 'v2'])
             doc[key] = val
         x = r.random()
-        if x < 0.3 or (mode == 'fail' and x < 0.6):
-            doc[r.choice(['zzz', 'extraKey', 'Unknown-Key', 'zz_top'])] = r.choice([1, 'q', None])
+        if x < 0.35 or (mode == 'fail' and x < 0.6):
+            # keys the class does not know: junk, or a field name (in some spelling) of ANOTHER class / a
+            # subclass - a negative cache entry for it must never reach a class that does declare the field
+            other = [n for n in FIELD_POOL if n not in {f[0] for f in fields}]
+            anc_junk = [sp for a in d['mro'] for n, sp in self.neg.get(a, []) if n is None]
+            if anc_junk and r.random() < 0.5:
+                nm, k = None, r.choice(anc_junk)
+            elif r.random() < 0.4 or not other:
+                nm, k = None, r.choice(['zzz', 'extraKey', 'Unknown-Key', 'zz_top'])
+            else:
+                # mostly fields that some OTHER class of the program declares, mostly spelled as declared
+                elsewhere = [n for n in other if any(n == f[0] for x, dd in self.decl.items() if x != c for f in dd['fields'])]
+                nm = r.choice(elsewhere) if (elsewhere and r.random() < 0.7) else r.choice(other)
+                k = nm if r.random() < 0.5 else r.choice(spellings(nm)[:3])
+            self.neg.setdefault(c, []).append((nm, k))
+            doc[k] = r.choice([1, 'q', None, 7])
+        if self.ext and r.random() < 0.3:
+            doc[r.choice(['ID', 'Alt-Key', 'extra', 'KeyY'])] = r.choice([3, '4'])
         if r.random() < 0.03:
             doc['_'] = 1
         if r.random() < 0.15:
@@ -535,16 +618,26 @@ class Prog:
             if isinstance(ty, dict):
                 fs.append([name, self.gen_inst(ty['nested'], novel)])
                 continue
-            if novel and r.random() < 0.6:
-                root = r.choice(['int', 'str', 'obj', 'obj']) if r.random() < 0.4 else ('int' if ty == 'int' else 'str')
-                chain = r.choice([[1], [2], [2, 1], [3, 2, 1], [3, 1], [4]])
-                self.seen_vt.add((tuple(chain), root))
-                z = dflt if (isinstance(dflt, int) and r.random() < 0.3) else r.randrange(-3, 40)
-                fs.append([name, {'sub': {'chain': chain, 'root': root}, 'z': z}])
+            if ty == 'datetime':
+                fs.append([name, {'dt': r.choice(['2020-01-01T00:00:00+00:00', '2021-05-06T07:08:09+00:00'])}])
+                continue
+            if ty in ('bool', 'badcond'):
+                fs.append([name, {'b': r.random() < 0.5}])
+                continue
+            if (novel and r.random() < 0.6) or (ty == 'any' and r.random() < 0.7):
+                pool = [t for t in self.VTYPES if r.random() < 0.35 or t[2] == ('str' if ty == 'str' else 'int')] or self.VTYPES
+                if self.ext and (ty == 'any' or r.random() < 0.2):
+                    pool = self.VTYPES + self.VTYPES_X * 3
+                mixins, chain, root = r.choice(pool)
+                self.seen_vt.add((tuple(mixins), tuple(chain), root))
+                z = dflt if (isinstance(dflt, int) and not isinstance(dflt, bool) and r.random() < 0.3) else r.randrange(-3, 40)
+                fs.append([name, {'sub': {'mixins': mixins, 'chain': chain, 'root': root}, 'z': z}])
             elif dflt is not None and r.random() < 0.4:
                 fs.append([name, {'i': dflt} if isinstance(dflt, int) else {'s': dflt}])
             elif ty == 'int':
                 fs.append([name, {'i': r.randrange(-3, 40)}])
+            elif ty == 'any':
+                fs.append([name, r.choice([None, {'i': 3}, {'s': 'q'}])])
             else:
                 fs.append([name, {'s': r.choice(['hello', 'd', '', 'v2'])}])
         return {'c': c, 'f': fs}
@@ -570,13 +663,13 @@ class Prog:
         if not cands:
             return None
         c = self.r.choice(cands)
-        o = {'op': 'bind', 'cid': c, 'meta': gen_meta(self.r), 'tag': 'bind'}
+        o = {'op': 'bind', 'cid': c, 'meta': gen_meta_x(self.r) if self.ext else gen_meta(self.r), 'tag': 'bind'}
         self.ops.append(o)
         return o
 
 
-def gen_history(r, n_ops):
-    p = Prog(r)
+def gen_history(r, n_ops, ext=False):
+    p = Prog(r, ext=ext)
     p.new_class('leaf')
     while len(p.ops) < n_ops:
         x = r.random()
@@ -586,8 +679,10 @@ def gen_history(r, n_ops):
         elif x < 0.34 and p.bind() is not None:
             pass
         else:
-            # prefer classes related to what was used already (same class, base, subclass, enclosing root)
-            p.use()
+            o = p.use()
+            # the same call again (a retried failing call must fail the same way)
+            if r.random() < (0.3 if ext else 0.15):
+                p.ops.append(dict(copy.deepcopy(o), tag='repeat'))
     return p.ops[:n_ops]
 
 
@@ -715,9 +810,19 @@ def classify_and_report(ctx, label, h, info, prop_regions):
         # regions accumulated up to and including operation i
         here = set(regs[i])
         known = [f for f in here if f in prop_regions and ctx.is_open_region(OPEN[f])]
-        if known:
+        # the open regions are exactly the behaviours the faithful model reproduces: inside a region the
+        # changed outcome is a known finding only if it is the outcome the model predicts for today's tree
+        # (a change that makes MORE leak there - another setting, another order - is a violation)
+        beyond = bool(known) and mod is not None and i < len(mod) and mod[i] != impl[i]
+        if known and not beyond:
             for f in known:
                 ctx.hist('known_region', OPEN[f])
+            continue
+        if beyond:
+            ctx.violation('%s: operation %d (%s on class %s) lies in the open region %s, but gives %s where today\'s behaviour '
+                          '(state model) is %s; alone after its definitions: %s' % (label, i, h[i]['op'], op_class(h[i]),
+                                                                                  '/'.join(known), impl[i], mod[i], alone[i]),
+                          {'kind': 'history', 'history': h[:i + 1], 'full_history': h, 'index': i, 'model': mod[i]})
             continue
 
         def fails(hh, target=h[i]):
@@ -800,7 +905,7 @@ def run(ctx):
         still, impl, alone = replay_witness(ctx, f['id'], h)
         ctx.count(1, key='witness:' + f['id'])
         ctx.known_finding(f['id'], still_fails=still)
-    # 2. generated histories
+    # 2. generated histories (grammar of the Coq model: correspondence + direct predicate)
     n = 420 if quick else 6000
     hs = []
     for _ in range(n):
@@ -819,6 +924,22 @@ def run(ctx):
         classify_and_report(ctx, 'C06', h, info, ('F2', 'F10', 'F40', 'F11'))
     ctx.sample({'history': hs[0], 'impl': infos[0]['impl'], 'model': infos[0]['model'], 'alone': infos[0]['alone']})
     ctx.sample({'history': hs[7], 'impl': infos[7]['impl'], 'alone': infos[7]['alone']})
+    # 2b. extended grammar (direct predicate only; features outside the Coq model): setup-time failures
+    #     (a bare Condition annotation makes the dump setup raise) with the call retried, datetime / Any / bool
+    #     fields, list-rooted value types with mixins, Meta settings auto_assign_tags / tag_key /
+    #     marshal_date_time_as / skip_if / json_key_to_field built from SHARED Python objects
+    rx = ctx.sub_rng('histories_x')
+    hx = [gen_history(rx, rx.choice([3, 4, 5, 6, 7, 8, 9, 10, 11, 12]), ext=True) for _ in range(300 if quick else 4000)]
+    infx = check_histories(ctx, hx, 'c06x', model=False, alone_sample=0.05)
+    for h, info in zip(hx, infx):
+        ctx.count(1, key='x:' + history_text(h), nontrivial=related_uses(h) >= 2)
+        ctx.hist('length_x', len(h))
+        for o, out in zip(h, info['impl']):
+            if o['op'] in ('load', 'dump'):
+                ctx.hist('outcome_x', out[:2] + out[2:].split(':')[0][:24] if out.startswith('e') else 'value')
+                ctx.hist('op_x', o.get('tag', o['op']))
+        classify_and_report(ctx, 'C06x', h, info, ('F2', 'F10', 'F40', 'F11'))
+    ctx.sample({'extended_history': hx[0], 'impl': infx[0]['impl'], 'alone': infx[0]['alone']})
     # 3. strict setting: the same offending document is rejected every time (F1 repaired) - direct
     strict = []
     for k in range(20 if quick else 200):
